@@ -431,4 +431,61 @@ theorem flatMap_units_onKey (cfg : Cfg) (k : Bytes) (rest : List Entry)
   rcases List.mem_flatMap.mp hr with ⟨e, he, hre⟩
   exact wrapUnit_onKey (expand_onKey cfg k e (h e he).1 (h e he).2) r hre
 
+/-! ### the driver's worker loop (`runWorker`, used for the correspondence with the
+    real code) coincides with `runPlain` / `runBisync` (used in the theorems) on
+    entries of the connection's current DB (no SELECT is issued) -/
+
+def lastOut : List (List Req × Outcome) → Outcome
+  | [] => .ok
+  | [l] => l.2
+  | _ :: rest => lastOut rest
+
+theorem runWorker_plain (pol : Policy) (cfg : Cfg) (cur : Nat) :
+    ∀ (es : List Entry) (st : RState) (t : Target), (∀ e ∈ es, e.db = Int.ofNat cur) →
+      (runWorker false pol cfg cur st t es).flatMap (·.1) = (runPlain pol cfg st t es).reqs ∧
+      workerTarget t (runWorker false pol cfg cur st t es) = (runPlain pol cfg st t es).tgt
+  | [], st, t, _ => by simp [runWorker, runPlain_nil, workerTarget]
+  | e :: rest, st, t, h => by
+    have he : e.db = Int.ofNat cur := h e (List.mem_cons_self ..)
+    have hsel : (if e.db ≥ 0 ∧ e.db.toNat ≠ cur then [Req.select e.db.toNat] else []) = [] := by
+      rw [he]; simp
+    have hcur : (if e.db ≥ 0 then e.db.toNat else cur) = cur := by rw [he]; simp
+    unfold runWorker runPlain
+    simp only [hsel, hcur, applyReqs, List.foldl_nil, List.nil_append, Bool.false_eq_true, if_false]
+    cases hr : replay pol cfg st (viewOf t e) e with
+    | mk rs p =>
+      obtain ⟨out, st'⟩ := p
+      cases out with
+      | ok =>
+        have ih := runWorker_plain pol cfg cur rest st' (List.foldl applyReq t rs) (fun x hx => h x (List.mem_cons_of_mem _ hx))
+        simp only [List.flatMap_cons, workerTarget, List.foldl_cons, applyReqs] at ih ⊢
+        exact ⟨by rw [ih.1], by rw [← ih.2]⟩
+      | errExists => simp [workerTarget, applyReqs]
+      | errModule => simp [workerTarget, applyReqs]
+
+theorem runWorker_bisync (pol : Policy) (cfg : Cfg) (cur : Nat) :
+    ∀ (es : List Entry) (st : RState) (t : Target), (∀ e ∈ es, e.db = Int.ofNat cur) →
+      (runWorker true pol cfg cur st t es).flatMap (·.1) = (runBisync pol cfg st t es).reqs ∧
+      workerTarget t (runWorker true pol cfg cur st t es) = (runBisync pol cfg st t es).tgt
+  | [], st, t, _ => by simp [runWorker, runBisync_nil, workerTarget]
+  | e :: rest, st, t, h => by
+    have he : e.db = Int.ofNat cur := h e (List.mem_cons_self ..)
+    have hsel : (if e.db ≥ 0 ∧ e.db.toNat ≠ cur then [Req.select e.db.toNat] else []) = [] := by
+      rw [he]; simp
+    have hcur : (if e.db ≥ 0 then e.db.toNat else cur) = cur := by rw [he]; simp
+    unfold runWorker runBisync
+    simp only [hsel, hcur, applyReqs, List.foldl_nil, List.nil_append, if_true]
+    cases hr : buildUnit pol cfg st (viewOf t e) e with
+    | mk direct p =>
+      obtain ⟨cmds, out, st'⟩ := p
+      cases hb : bOut out with
+      | ok =>
+        have ih := runWorker_bisync pol cfg cur rest st'
+          (List.foldl applyReq t (direct ++ if out = BOutcome.unit then execUnit cmds else []))
+          (fun x hx => h x (List.mem_cons_of_mem _ hx))
+        simp only [List.flatMap_cons, workerTarget, List.foldl_cons, applyReqs] at ih ⊢
+        exact ⟨by rw [ih.1], by rw [← ih.2]⟩
+      | errExists => simp [workerTarget, applyReqs]
+      | errModule => simp [workerTarget, applyReqs]
+
 end GunYu.Restore
